@@ -1,6 +1,8 @@
 package stack
 
 import (
+	"fmt"
+	"os"
 	"testing"
 
 	"pgregory.net/rapid"
@@ -104,6 +106,9 @@ func judgeC06(hst Hist) *h.Verdict {
 				if mi == nil {
 					continue
 				}
+				if os.Getenv("VERIF_DEBUG") != "" {
+					fmt.Fprintf(os.Stderr, "DEBUG step %d rg %d: credited %d usage %d avail %d preBal %d afford %d req %d granted %d fui %v reqnum %v\n", step, u.RG, st.credited[u.RG], st.usage[u.RG], avail, preBal[u.RG], afford, u.Req, mi.granted, mi.fui, pre.ReqNum)
+				}
 				if afford < int64(u.Req) {
 					if avail == 0 {
 						v.NT("nothing-left")
@@ -180,8 +185,8 @@ func genC06Long(t *rapid.T) Hist {
 	cost := rapid.SampledFrom([]int{1, 3, 7}).Draw(t, "cost")
 	// enough money for the first half of the history: the request counter passes its thresholds while the account is
 	// still being debited, the money runs out afterwards (once it has, the known over-grant ends what can be judged)
-	money := int64(cost) * int64(rapid.IntRange(12000, 16000).Draw(t, "money"))
-	hst.Subs = []Sub{{Acct: [3]Acct{{cost, money}, {cost, money / 8}, {cost, 500}}}}
+	money := int64(cost) * int64(rapid.IntRange(6000, 9000).Draw(t, "money"))
+	hst.Subs = []Sub{{Acct: [3]Acct{{cost, money}, {cost, 1 << 40}, {cost, 1 << 40}}}} // (only the first rating group runs out of money)
 	hst.Ops = append(hst.Ops, Op{K: "create", S: 0, Name: "smf", UUs: []UU{{RG: 1, Req: 100}}})
 	n := h.Scale(320, 3000)
 	for i := 0; i < n; i++ {
